@@ -297,12 +297,16 @@ def measure_documents(draw, MP):
     # preamble: the same signature kinds on every kern spine
     rows.append(sig_row('clef'))
     kinds = [k for k in ('key', 'time', 'meter') if draw(st.integers(0, 2))]
-    for kd in kinds:
-        rows.append(sig_row(kd))
-    if MP['tandems'] and draw(st.integers(0, 3)) == 0:
-        t = draw(st.sampled_from(['*MM120', '*C:', '*staff1', '*Ipiano']))
-        rows.append(_row([{'k': 'interp', 't': t, 'e': t, 'cat': None} if paths.typ(k) == KERN else G.nullinterp_cell()
-                          for k in range(width())]))
+    pre = [sig_row(kd) for kd in kinds]
+    if MP['tandems'] and draw(st.integers(0, 2)) == 0:
+        # a tandem row somewhere in the opening block; some spines may only have a null interpretation there (kernpy
+        # then starts its measure 1 inside the opening block)
+        t = draw(st.sampled_from(['*MM120', '*C:', '*staff1', '*Ipiano', '*I"Cello']))
+        cells = [{'k': 'interp', 't': t, 'e': t, 'cat': None} if paths.typ(k) == KERN and draw(st.integers(0, 2))
+                 else G.nullinterp_cell() for k in range(width())]
+        if any(c['k'] == 'interp' for c in cells):
+            pre.insert(draw(st.integers(0, len(pre))), _row(cells))
+    rows.extend(pre)
 
     def data_row(force_note=False):
         cells = [_data_cell(draw, P, paths.typ(k)) for k in range(width())]
